@@ -11,8 +11,8 @@ Record sev := { e_off : offset; e_pay : nat }.
 Definition take {A} (limit : Z) (l : list A) : list A :=
   if (limit <=? 0)%Z then l else firstn (Z.to_nat limit) l.
 
-Definition last_off (from : offset) (l : list sev) : offset :=
-  match rev l with [] => from | e :: _ => e_off e end.
+Fixpoint last_off (from : offset) (l : list sev) : offset :=
+  match l with [] => from | e :: r => last_off (e_off e) r end.
 
 (* ---------------- MemoryStore ---------------- *)
 Record mem := { m_events : list sev; m_next : N; m_subs : list (nat * offset) }.
@@ -112,6 +112,9 @@ Inductive sres :=
 | RSave (ok : bool)
 | RLoad (r : option offset).
 
+Definition store_of (o : sop) : nat :=
+  match o with SAppend k _ | SRead k _ _ | SStream k _ | SSave k _ _ | SLoad k _ => k end.
+
 Record store_impl (S : Type) := {
   i_init : S;
   i_append : S -> nat -> S * option offset;
@@ -161,3 +164,65 @@ Section Run.
     end.
   Definition run_init (ops : list sop) : list sres := run (i_init S I, i_init S I) ops.
 End Run.
+
+(* ---------------- durable-streams store (/repo/stores/durablestream/store.go) over the
+   in-memory durable-streams server: one message per append, offsets "%010d", reads paginated
+   by the server into chunks of [d_chunk] messages (0 = unlimited; the harness makes all messages
+   the same size so that the server's byte budget is a message count) ---------------- *)
+Record ds := { d_msgs : list nat; d_chunk : nat }.
+Definition ds_init (chunk : nat) : ds := {| d_msgs := []; d_chunk := chunk |}.
+Definition ds_off (k : nat) : offset := pad 10 (N.of_nat k).
+
+Definition ds_append (s : ds) (p : nat) : ds * offset :=
+  ({| d_msgs := d_msgs s ++ [p]; d_chunk := d_chunk s |}, ds_off (S (length (d_msgs s)))).
+
+(* the server's parseOffset: "" and "-1" are the start; otherwise fmt.Sscanf("%d"): optional sign,
+   at least one digit, stops at the first other byte *)
+Fixpoint lead_digits (l : bytes) (acc : N) (seen : bool) : option N :=
+  match l with
+  | c :: r => if (48 <=? c)%N && (c <=? 57)%N then lead_digits r (acc * 10 + (c - 48))%N true
+              else if seen then Some acc else None
+  | [] => if seen then Some acc else None
+  end.
+Definition ds_parse (o : offset) : option Z :=
+  match o with
+  | [] => Some 0%Z
+  | [45%N; 49%N] => Some 0%Z                      (* "-1" *)
+  | 45%N :: r => option_map (fun n => (- Z.of_N n)%Z) (lead_digits r 0 false)
+  | 43%N :: r => option_map Z.of_N (lead_digits r 0 false)
+  | _ => option_map Z.of_N (lead_digits o 0 false)
+  end.
+
+Definition ds_chunk_of (s : ds) (idx : nat) : list nat :=
+  let rest := skipn idx (d_msgs s) in
+  match d_chunk s with 0 => rest | c => firstn c rest end.
+
+Fixpoint synth (next : offset) (i : N) (l : list nat) : list sev :=
+  match l with
+  | [] => []
+  | p :: r => {| e_off := next ++ [47%N] ++ dec i; e_pay := p |} :: synth next (i + 1)%N r
+  end.
+
+Definition ds_read (s : ds) (from : offset) (limit : Z) : option (list sev * offset) :=
+  match ds_parse from with
+  | None => None
+  | Some z =>
+    if (z <? 0)%Z || (Z.of_nat (length (d_msgs s)) <? z)%Z then None       (* ErrGone *)
+    else
+      let idx := Z.to_nat z in
+      let chunk := ds_chunk_of s idx in
+      match chunk with
+      | [] => Some ([], match from with [] | [45%N; 49%N] => ds_off 0 | _ => from end)
+      | _ => let next := ds_off (idx + length chunk) in
+             Some (take limit (synth next 0 chunk), next)   (* truncation keeps the chunk's end as next *)
+      end
+  end.
+
+Definition ds_impl (chunk : nat) : store_impl ds := {|
+  i_init := ds_init chunk;
+  i_append := fun s p => let '(s', o) := ds_append s p in (s', Some o);
+  i_read := ds_read;
+  i_stream := fun _ _ => None;
+  i_save := fun s _ _ => (s, false);
+  i_load := fun _ _ => None
+|}.
